@@ -20,7 +20,28 @@ def _depfile_nontrivial(case, impl):
         return len(it) > 3 and it[1] != "0"
     return it[:1] == ["err"] and it[1] != "0"
 
+def _render_nontrivial(case, impl):
+    t = case.split(); it = impl.split()
+    if t[0] == "taskmsg":   # non-trivial: the message was actually cut
+        return len(it) == 2 and it[0] == "ok" and "2e2e2e" in it[1]
+    if t[0] == "truncate":
+        return len(it) == 2 and it[1] != t[1]
+    return t[0] == "bar" and any(x != "0" for x in t[1:7])
+
 PROPS = {
+    "C20": {
+        "claim": "Lean 4 theorems over ALL byte strings, seconds, widths and count vectors: truncate returns a boundary-aligned prefix of at most max bytes; the repaired task_message never panics, fits the width (>= 3) and is cut on a character boundary; progress_bar has exactly its nominal width. The model is tied to the real helpers (through add-only pub wrappers) on all strings up to 3/5 characters mixing 1-4 byte characters x widths x seconds, random long strings, and exhaustive small + random count vectors.",
+        "props": ["C20"],
+        "modes": ["render"],
+        "level": "proof",
+        "nontrivial": {"render": _render_nontrivial},
+        "rule": "task_message/truncate: every string of up to 3 (quick) / 5 (thorough) characters over {1,2,3,4-byte char} x widths 10..40,79-81,120,300 (quick) / 10..300 (thorough) x seconds {0,2,3,10,12345,10^6}; random 5-120 character strings; progress_bar: every count vector with entries < 3 (quick) / < 4 x bar sizes, random vectors up to 5000. Non-trivial = message actually cut / truncate shortened / non-zero counts.",
+        "assumptions": COMMON_ASSUME + [
+            "the debounce thread, its mutex and stdout write errors of FancyConsoleProgress are not modelled: 'never aborts the build' is carried by no-panic of the only computations on that thread plus usize arithmetic in print_progress (max_cols - 2 with max_cols >= 10)",
+            "Rust &str arguments are valid UTF-8; the theorems are stronger (arbitrary bytes)",
+        ],
+        "trusted_base": ["progress_fancy.rs modelled: task_message, truncate, progress_bar, StateCounts::total; print_progress's formatting and the thread are not modelled"],
+    },
     "C15": {
         "claim": "Lean 4 theorems about an executable model of depfile.rs + read_depfile: the recorded prerequisites are exactly the listed ones (in order for distinct targets; none lost for repeated targets, finding F11 repaired). The byte-level parser model is tied to the real parser on all short strings over the depfile alphabet, structured depfiles under random formatting and raw bytes; the round-trip monitor runs in Lean on the real parser's output.",
         "props": ["C15"],
